@@ -129,16 +129,18 @@ def pattern(src):
 
 
 def assigned(stmts):
+    """names bound by the statements: x = .., x op= .., x.append(..), for a, b in ..  (any other binding form is a gap)"""
     out = []
     for s in stmts:
         for n in ast.walk(s):
-            t = n.targets[0] if isinstance(n, ast.Assign) and len(n.targets) == 1 else n.target if isinstance(n, ast.AugAssign) else \
-                n.value.func.value if isinstance(n, ast.Expr) and isinstance(n.value, ast.Call) and \
-                isinstance(n.value.func, ast.Attribute) and n.value.func.attr == 'append' else None
-            if isinstance(n, (ast.Assign, ast.AugAssign, ast.For, ast.With, ast.NamedExpr, ast.Delete, ast.Import)) and not isinstance(t, ast.Name):
+            ts = n.targets if isinstance(n, ast.Assign) else [n.target] if isinstance(n, ast.AugAssign) else \
+                n.target.elts if isinstance(n, ast.For) and isinstance(n.target, ast.Tuple) else \
+                [n.value.func.value] if isinstance(n, ast.Expr) and isinstance(n.value, ast.Call) and \
+                isinstance(n.value.func, ast.Attribute) and n.value.func.attr == 'append' else []
+            if isinstance(n, (ast.Assign, ast.AugAssign, ast.For, ast.With, ast.NamedExpr, ast.Delete, ast.Import, ast.ImportFrom)) and \
+                    (not ts or not all(isinstance(t, ast.Name) for t in ts)):
                 gap(n, 'binding form')
-            if t is not None and t.id not in out:
-                out.append(t.id)
+            out += [t.id for t in ts if t.id not in out]
     return out
 
 
@@ -320,7 +322,7 @@ class Fn:
         state = [v for v in assigned(s.body) if v in env]
         if ti != 'runs' or len(state) != 1 or a == b or {a, b} & (set(env) | set(assigned(s.body))):
             gap(s, 'for loop: over (n, 2) integer rows, with fresh row names and exactly one accumulated variable')
-        reads = sorted({(n.lineno, n.col_offset, n.id) for n in ast.walk(s) if isinstance(n, ast.Name) and
+        reads = sorted({(n.lineno, n.col_offset, n.id) for st in s.body for n in ast.walk(st) if isinstance(n, ast.Name) and
                         isinstance(n.ctx, ast.Load) and n.id in env and n.id not in state})
         free = list(dict.fromkeys(v for _, _, v in reads))
         self.nfor += 1
@@ -380,8 +382,9 @@ class Fn:
                               ast.FunctionDef, ast.ListComp, ast.GeneratorExp, ast.NamedExpr)) and n not in (f, body[-1]):
                 gap(n, 'control flow not covered inside the coroutine')
         params, state, chunk = dict(sp['params']), sp['state'], sp['chunk']
-        written = assigned(loop[:-1])
-        if [v for v in written if v in params and v not in dict(state)] or chunk in written or chunk in assigned(pre[at[0] + 1:]):
+        kept = lambda stmts: [s for s in stmts if ast.unparse(s) not in sp['drop']]          # (top-level) pinned statements aside
+        written = assigned(kept(loop[:-1]))
+        if [v for v in written if v in params and v not in dict(state)] or chunk in written or chunk in assigned(kept(pre[at[0] + 1:])):
             gap(f, 'a parameter that is not part of the state (or the received chunk) is rebound')
         sig = lambda names: ' '.join(f'({mangle(p)} : {COQ_TYPE[params[p]]})' for p in names)
         styp = ' * '.join(COQ_TYPE[t] for _, t in state)
